@@ -157,7 +157,7 @@ def check_error(d, root, X, e, hop, problems, depth=0, base="", id_of=None):
                 problems.append("draft 3 required: path must be parent path + missing name")
         elif keymode:
             obj = walk_instance(X, ap)
-            if not isinstance(obj, dict) or e.instance not in obj:
+            if not isinstance(obj, dict) or not isinstance(e.instance, str) or e.instance not in obj:
                 problems.append("propertyNames error: instance %r is not a key of the object at its path" % (e.instance,))
         else:
             got = walk_instance(X, ap)
@@ -206,7 +206,10 @@ def check_case(d, S, X, v=None, hop=None, with_reference=True):
     problems = []
     nerr = 0
     for e in errors:
-        check_error(d, S, X, e, hop, problems)
+        try:
+            check_error(d, S, X, e, hop, problems)
+        except Exception as ex:         # an error object so malformed that looking at it fails
+            problems.append("invariant evaluation raised %s" % type(ex).__name__)
         nerr += 1 + _count_ctx(e)
     if with_reference:
         try:
@@ -243,7 +246,10 @@ def check_ref_case(d, S, docs, X, split):
     problems = []
     n = 0
     for e in errors:
-        check_error(d, S, X, e, hop, problems, 0, world.base0, world.id_of)
+        try:
+            check_error(d, S, X, e, hop, problems, 0, world.base0, world.id_of)
+        except Exception as ex:
+            problems.append("invariant evaluation raised %s" % type(ex).__name__)
         n += 1 + _count_ctx(e)
     return n, problems
 
